@@ -416,7 +416,7 @@ def cases(tier):
         for kind in ('single', 'bypass', 'pins'):
             for wire in ('clockwise', 'counterclockwise'):
                 for wall in ('none', 'flow'):
-                    if tier == 'quick' and kind == 'pins' and (rings != 3 or wall == 'flow'):
+                    if tier == 'quick' and kind == 'pins' and rings == 4:
                         continue
                     asm.append(dict(rings=rings, kind=kind, wire=wire, wall=wall, elements=elems))
     if tier == 'quick':
@@ -426,6 +426,11 @@ def cases(tier):
             for gm in ('flow', 'no_flow', 'duct_average'):
                 core.append(dict(layout=lay, gap_model=gm, elements=[1, 2, 3, 4, 5]))
         core.append(dict(layout=(['A', 'B', 'A'] * 7)[:19], gap_model='flow', elements=[1, 3]))
+        lay19 = (['A', 'B', 'A', 'A', 'B'] * 4)[:19]
+        for vac, gm in ((0, 'no_flow'), (4, 'duct_average'), (11, 'flow')):
+            lay = list(lay19)
+            lay[vac] = None
+            core.append(dict(layout=lay, gap_model=gm, elements=[1, 2]))
         # temperature-dependent coolant, with and without the correlation-update tolerance
         for lay in (['A'] * 7, ['A', 'B', 'A', 'B', 'A', 'B', 'A']):
             for tol in (0.0, 0.01):
